@@ -6,7 +6,7 @@ open MosnVerif.Gen.ProxyPhase MosnVerif.Gen.ProxyReason MosnVerif.Gen.ProxyRetry
 /-- a forwarding step that only sends (trace grows by upstream-side events), may complete the request
 (`reqSent`, timers) and moves to the next forwarding phase -/
 theorem inv_fwd_step (c : Cfg) (ar aq : Nat) (s : S) (h : Inv c ar aq s) (hrun : s.running = true)
-    (q : Phase) (t : List Ev) (rq pt gt rd : Bool) (gg : Nat)
+    (q : Phase) (t : List Ev) (rq pt gt rd : Bool) (gg : Nat) (go : Bool)
     (hp : s.phase = .DownRecvData ∨ s.phase = .DownRecvTrailer ∨ s.phase = .Oneway)
     (hq : (s.phase ≠ .Oneway ∧ q = s.phase.next) ∨ (s.phase = .Oneway ∧ q = .WaitNotify))
     (hone : s.phase = .Oneway → c.oneway = false)
@@ -16,7 +16,7 @@ theorem inv_fwd_step (c : Cfg) (ar aq : Nat) (s : S) (h : Inv c ar aq s) (hrun :
     (hgl : c.oneway = false → rq = true → gt = true ∨ s.globalExpired = true)
     (h29 : c.oneway = false → s.pass = 0 →
       (q = .DownRecvTrailer → rq = true ∨ c.hasTrailers = true) ∧ (q = .Oneway → rq = true) ∧ (q = .WaitNotify → rq = true)) :
-    Inv c ar aq { s with phase := q, trace := t, reqSent := rq, perTry := pt, global := gt, recvDone := rd, gtGen := gg } := by
+    Inv c ar aq { s with phase := q, trace := t, reqSent := rq, perTry := pt, global := gt, recvDone := rd, gtGen := gg, gtObj := go } := by
   have hcl := inv_not_cleaned h hrun
   have hfwd : fwdPhase s.phase = true := by rcases hp with hp | hp | hp <;> simp [hp, fwdPhase]
   have hqf : fwdPhase q = true ∧ upPhase q = false ∧ prePhase q = false ∧ q ≠ .End ∧ q ≠ .Retry ∧
@@ -24,14 +24,21 @@ theorem inv_fwd_step (c : Cfg) (ar aq : Nat) (s : S) (h : Inv c ar aq s) (hrun :
     rcases hq with ⟨hq0, hq⟩ | ⟨hq1, hq⟩ <;> rcases hp with hp | hp | hp <;> simp_all [Phase.next, fwdPhase, upPhase, prePhase]
   obtain ⟨hq1, hq2, hq3, hq4, hq5, hq6, hq7, hq8⟩ := hqf
   have h18 := h.k18 hcl hfwd
+  have hnr : s.phase ≠ .Retry := by rcases hp with hp | hp | hp <;> (rw [hp]; decide)
   have hmain : s.up.isSome = true ∧ s.rs.isSome = true ∧ (s.globalExpired = true → s.urr = true) ∧
       ((s.urr = true ∨ s.upReset = true ∨ s.downReset = true) → s.notify = true) := by
     rcases h18 with ⟨ho, hh, _⟩ | hm
     · have := hone hh; rw [ho] at this; cases this
-    · exact ⟨hm.1, hm.2.1, hm.2.2.2.1, hm.2.2.1⟩
+    · refine ⟨hm.1, hm.2.1, fun hh => ?_, fun hh => ?_⟩
+      · rcases hm.2.2.2.1 hh with h1 | h1
+        · exact h1
+        · exact absurd h1 hnr
+      · rcases hm.2.2.1 hh with h1 | h1
+        · exact h1
+        · exact absurd h1.1 hnr
   have hps : c.oneway = false → s.pass = 0 := fun ho => h.k25 hcl ho hmain.2.1
   obtain ⟨k0, k1, k2, k3, k4, k5, k6, k7, k8, k9, k10, k11, k12, k13, k14, k15, k16, k17, k18, k19, k20, k21, k22, k23, k24, k25, k26, k27, k28, k29, k30, k31, k32, k33⟩ := h
-  have hnw : s.phase ≠ .WaitNotify := by rcases hp with hp | hp | hp <;> (rw [hp]; decide)
+  have hnw : ¬ (s.phase = .WaitNotify ∨ s.phase = .Retry) := by rcases hp with hp | hp | hp <;> (rw [hp]; decide)
   refine ⟨k0, ?_, ?_, ?_, ?_, k5, k6, k7_frame k7 hcl hnw rfl rfl, ?_, k9, k10, k11, k12, ?_, k14, ?_, ?_, ?_, ?_, ?_, k20, ?_, k22, ?_, ?_, k25, ?_, ?_, k28, ?_, ?_, k31, ?_, (fun hh => absurd hh (by simp [hcl]))⟩
   · simpa [K1, ht1] using k1
   · simpa [K2, ht1] using k2
@@ -53,7 +60,7 @@ theorem inv_fwd_step (c : Cfg) (ar aq : Nat) (s : S) (h : Inv c ar aq s) (hrun :
   · intro _ hh; simp [hq3] at hh
   · intro _ _
     right
-    refine ⟨hmain.1, hmain.2.1, hmain.2.2.2, hmain.2.2.1, ?_, ?_⟩
+    refine ⟨hmain.1, hmain.2.1, fun hh => Or.inl (hmain.2.2.2 hh), fun hh => Or.inl (hmain.2.2.1 hh), ?_, ?_⟩
     · intro how hq'; exact (hgl how hq').elim Or.inl (fun hh => Or.inr (Or.inl hh))
     · intro hw
       cases how : c.oneway with
@@ -68,7 +75,10 @@ theorem inv_fwd_step (c : Cfg) (ar aq : Nat) (s : S) (h : Inv c ar aq s) (hrun :
   · intro _ how hq' _; exact (hgl how hq').elim Or.inl (fun hh => Or.inr (Or.inl hh))
   · intro _ hh; exact absurd hh hq5
   · intro _ _ hu
-    exact k27 hcl hfwd hu
+    rcases k27 hcl hfwd hu with h1 | h1 | h1
+    · exact Or.inl h1
+    · exact Or.inr (Or.inl h1)
+    · exact absurd h1.1 hnr
   · intro _ how hp0
     have := h29 how hp0
     exact ⟨fun hh => absurd hh hq8, this.1, this.2.1⟩
@@ -96,12 +106,12 @@ theorem nLog_dataTrace (s : S) (e : Nat → Ev) (he : ∀ k, isLog (e k) = false
   · rfl
 
 /-- what a forwarding phase body that sent something leaves behind -/
-def sent (s : S) (t : List Ev) (rq pt gt rd : Bool) (gg : Nat) : S :=
-  { s with trace := t, reqSent := rq, perTry := pt, global := gt, recvDone := rd, gtGen := gg }
+def sent (s : S) (t : List Ev) (rq pt gt rd : Bool) (gg : Nat) (go : Bool) : S :=
+  { s with trace := t, reqSent := rq, perTry := pt, global := gt, recvDone := rd, gtGen := gg, gtObj := go }
 
 /-- end of a sending phase body (`receiveData`, `receiveTrailers`): `processError`, then the next forwarding phase -/
 theorem finish_sent (c : Cfg) (ar aq : Nat) (s : S) (h : Inv c ar aq s) (hrun : s.running = true)
-    (hpdn : processDone s = false) (t : List Ev) (rq pt gt rd : Bool) (gg : Nat)
+    (hpdn : processDone s = false) (t : List Ev) (rq pt gt rd : Bool) (gg : Nat) (go : Bool)
     (hp : s.phase = .DownRecvData ∨ s.phase = .DownRecvTrailer)
     (ht1 : snd t = snd s.trace) (ht2 : nLog t = nLog s.trace)
     (hrq1 : s.reqSent = true → rq = true) (hpt : c.oneway = true → pt = false) (hgt1 : s.global = true → gt = true)
@@ -109,13 +119,13 @@ theorem finish_sent (c : Cfg) (ar aq : Nat) (s : S) (h : Inv c ar aq s) (hrun : 
     (hgl : c.oneway = false → rq = true → gt = true ∨ s.globalExpired = true)
     (h29 : c.oneway = false → s.pass = 0 →
       (s.phase.next = .DownRecvTrailer → rq = true ∨ c.hasTrailers = true) ∧ (s.phase.next = .Oneway → rq = true)) :
-    Inv c ar aq (finishPhase c (sent s t rq pt gt rd gg)) := by
+    Inv c ar aq (finishPhase c (sent s t rq pt gt rd gg go)) := by
   have hcl := inv_not_cleaned h hrun
   simp only [processDone, Bool.or_eq_false_iff] at hpdn
   obtain ⟨⟨hpd, hdr⟩, hur⟩ := hpdn
   have hsr := (h.k7 hcl).1
   have hdir : s.direct = false := not_direct_of_phase h.k7 hcl (by rcases hp with hp | hp <;> (rw [hp]; decide))
-  have hb1 : Base c ar aq (sent s t rq pt gt rd gg) := by
+  have hb1 : Base c ar aq (sent s t rq pt gt rd gg go) := by
     obtain ⟨k1, k2, k4, k9, k10, k11, k12, k13, k14, k20, k21, k22, k31⟩ := h.base
     refine ⟨?_, ?_, ?_, k9, k10, k11, k12, ?_, k14, k20, ?_, k22, k31⟩
     · simpa [K1, sent, ht1] using k1
@@ -134,7 +144,7 @@ theorem finish_sent (c : Cfg) (ar aq : Nat) (s : S) (h : Inv c ar aq s) (hrun : 
   · intro hh; simp [sent, hur] at hh
   · intro hh; simp [sent, hur] at hh
   · intro _ _
-    have := inv_fwd_step c ar aq s h hrun s.phase.next t rq pt gt rd gg (by rcases hp with hp | hp <;> simp [hp])
+    have := inv_fwd_step c ar aq s h hrun s.phase.next t rq pt gt rd gg go (by rcases hp with hp | hp <;> simp [hp])
       (Or.inl ⟨by rcases hp with hp | hp <;> simp [hp], rfl⟩) (by intro hh; rcases hp with hp | hp <;> (rw [hp] at hh; cases hh))
       ht1 ht2 hrq1 hpt hgt1 hgt2 hgl
       (by
@@ -172,20 +182,20 @@ theorem inv_work_drd (c : Cfg) (ar aq : Nat) (s : S) (h : Inv c ar aq s) (hrun :
     · -- a reset arrived meanwhile: nothing is sent, `processError` deals with it
       have e : receiveData c s (!c.hasTrailers) = s := by simp [receiveData, hpdn]
       rw [e]
-      apply finish_inv c ar aq s h hrun (by intro hh; rw [hp] at hh; cases hh) (by intro hh; rw [hp] at hh; cases hh)
+      apply finish_inv c ar aq s h hrun (by rw [hp]; decide) (by intro hh; rw [hp] at hh; cases hh)
       intro h1 h2
       simp [processDone, hpd, h1, h2] at hpdn
     · simp only [Bool.not_eq_true] at hpdn
       cases ht : c.hasTrailers with
       | true =>
-        have e : receiveData c s (!true) = sent s (dataTrace s (fun k => Ev.ud k false)) s.reqSent s.perTry s.global false s.gtGen := by
+        have e : receiveData c s (!true) = sent s (dataTrace s (fun k => Ev.ud k false)) s.reqSent s.perTry s.global false s.gtGen s.gtObj := by
           unfold receiveData
           rw [if_neg (by simp [hpdn])]
           simp only [Bool.not_true, Bool.false_eq_true, if_false]
           rw [if_neg (by show ¬ s.procDone = true; simp [hpd])]
           rfl
         rw [e]
-        apply finish_sent c ar aq s h hrun hpdn _ _ _ _ _ _ (Or.inl hp)
+        apply finish_sent c ar aq s h hrun hpdn _ _ _ _ _ _ _ (Or.inl hp)
         · exact snd_dataTrace s _ (fun _ _ => rfl)
         · exact nLog_dataTrace s _ (fun _ => rfl)
         · exact fun hh => hh
@@ -200,14 +210,14 @@ theorem inv_work_drd (c : Cfg) (ar aq : Nat) (s : S) (h : Inv c ar aq s) (hrun :
       | false =>
         have e : receiveData c s (!false) = sent s (dataTrace s (fun k => Ev.ud k true))
             true (s.perTry || (s.up.isSome && !c.oneway && c.tryTimeout)) (s.global || (s.up.isSome && !c.oneway)) true
-            (if (s.up.isSome && !c.oneway) = true then s.gtGen + 1 else s.gtGen) := by
+            (if (s.up.isSome && !c.oneway) = true then s.gtGen + 1 else s.gtGen) (s.gtObj || (s.up.isSome && !c.oneway)) := by
           unfold receiveData
           rw [if_neg (by simp [hpdn])]
           simp only [Bool.not_false, if_true]
           rw [if_neg (by show ¬ s.procDone = true; simp [hpd])]
           rfl
         rw [e]
-        apply finish_sent c ar aq s h hrun hpdn _ _ _ _ _ _ (Or.inl hp)
+        apply finish_sent c ar aq s h hrun hpdn _ _ _ _ _ _ _ (Or.inl hp)
         · exact snd_dataTrace s _ (fun _ _ => rfl)
         · exact nLog_dataTrace s _ (fun _ => rfl)
         · exact fun _ => rfl
@@ -219,7 +229,7 @@ theorem inv_work_drd (c : Cfg) (ar aq : Nat) (s : S) (h : Inv c ar aq s) (hrun :
           exact ⟨fun _ => Or.inl rfl, fun _ => rfl⟩
   · simp only [hd, Bool.false_eq_true, if_false]
     simp only [Bool.not_eq_true] at hd
-    have := inv_fwd_step c ar aq s h hrun s.phase.next s.trace s.reqSent s.perTry s.global s.recvDone s.gtGen (Or.inl hp)
+    have := inv_fwd_step c ar aq s h hrun s.phase.next s.trace s.reqSent s.perTry s.global s.recvDone s.gtGen s.gtObj (Or.inl hp)
       (Or.inl ⟨by simp [hp], rfl⟩) (by intro hh; rw [hp] at hh; cases hh) rfl rfl (fun hh => hh) (fun ho => (h21 ho).1)
       (fun hh => hh) (fun ho => (h21 ho).2) (fun how hq => h24 how hq hrsome)
       (by
@@ -253,20 +263,20 @@ theorem inv_work_drt (c : Cfg) (ar aq : Nat) (s : S) (h : Inv c ar aq s) (hrun :
     by_cases hpdn : processDone s = true
     · have e : receiveTrailers c s = s := by simp [receiveTrailers, hpdn]
       rw [e]
-      apply finish_inv c ar aq s h hrun (by intro hh; rw [hp] at hh; cases hh) (by intro hh; rw [hp] at hh; cases hh)
+      apply finish_inv c ar aq s h hrun (by rw [hp]; decide) (by intro hh; rw [hp] at hh; cases hh)
       intro h1 h2
       simp [processDone, hpd, h1, h2] at hpdn
     · simp only [Bool.not_eq_true] at hpdn
       have e : receiveTrailers c s = sent s (dataTrace s Ev.ut)
           true (s.perTry || (s.up.isSome && !c.oneway && c.tryTimeout)) (s.global || (s.up.isSome && !c.oneway)) true
-            (if (s.up.isSome && !c.oneway) = true then s.gtGen + 1 else s.gtGen) := by
+            (if (s.up.isSome && !c.oneway) = true then s.gtGen + 1 else s.gtGen) (s.gtObj || (s.up.isSome && !c.oneway)) := by
         unfold receiveTrailers
         rw [if_neg (by simp [hpdn])]
         simp only []
         rw [if_neg (by show ¬ s.procDone = true; simp [hpd])]
         rfl
       rw [e]
-      apply finish_sent c ar aq s h hrun hpdn _ _ _ _ _ _ (Or.inr hp)
+      apply finish_sent c ar aq s h hrun hpdn _ _ _ _ _ _ _ (Or.inr hp)
       · exact snd_dataTrace s _ (fun _ _ => rfl)
       · exact nLog_dataTrace s _ (fun _ => rfl)
       · exact fun _ => rfl
@@ -278,7 +288,7 @@ theorem inv_work_drt (c : Cfg) (ar aq : Nat) (s : S) (h : Inv c ar aq s) (hrun :
         exact ⟨fun _ => Or.inl rfl, fun _ => rfl⟩
   · simp only [hd, Bool.false_eq_true, if_false]
     simp only [Bool.not_eq_true] at hd
-    have := inv_fwd_step c ar aq s h hrun s.phase.next s.trace s.reqSent s.perTry s.global s.recvDone s.gtGen (Or.inr (Or.inl hp))
+    have := inv_fwd_step c ar aq s h hrun s.phase.next s.trace s.reqSent s.perTry s.global s.recvDone s.gtGen s.gtObj (Or.inr (Or.inl hp))
       (Or.inl ⟨by simp [hp], rfl⟩) (by intro hh; rw [hp] at hh; cases hh) rfl rfl (fun hh => hh) (fun ho => (h21 ho).1)
       (fun hh => hh) (fun ho => (h21 ho).2) (fun how hq => h24 how hq hrsome)
       (by
@@ -319,7 +329,7 @@ theorem inv_work_oneway (c : Cfg) (ar aq : Nat) (s : S) (h : Inv c ar aq s) (hru
     fun a b d => or3_nd (h.k24 hcl a b d) (not_direct_of_phase h.k7 hcl (by rw [hp]; decide))
     have h21 := h.k21
     rw [hnext]
-    have := inv_fwd_step c ar aq s h hrun .WaitNotify s.trace s.reqSent s.perTry s.global s.recvDone s.gtGen (Or.inr (Or.inr hp))
+    have := inv_fwd_step c ar aq s h hrun .WaitNotify s.trace s.reqSent s.perTry s.global s.recvDone s.gtGen s.gtObj (Or.inr (Or.inr hp))
       (Or.inr ⟨hp, rfl⟩) (fun _ => how) rfl rfl (fun hh => hh) (fun ho => (h21 ho).1)
       (fun hh => hh) (fun ho => (h21 ho).2) (fun how hq => h24 how hq hrsome)
       (by
@@ -374,7 +384,7 @@ theorem inv_work_wait (c : Cfg) (ar aq : Nat) (s : S) (h : Inv c ar aq s) (hrun 
       · exact h0
       · rw [hupf] at h0; cases h0
       · rw [hp] at h0; cases h0
-  · intro _ _ hu; exact h.k27 hcl hfwd hu
+  · intro hur _ _; exact Or.inl hur
   · intro hur how
     refine ⟨hup, hrsome, h.k23 hcl (Or.inl hur), by simp [hp], fun hq => or3_nd (h.k24 hcl how hq hrsome) hdir⟩
   · intro hur hdr
@@ -383,8 +393,11 @@ theorem inv_work_wait (c : Cfg) (ar aq : Nat) (s : S) (h : Inv c ar aq s) (hrun 
     have hurr : s.urr = true := by
       have := h.k28 hcl hn
       simpa [hur, hdr] using this
-    have h27 := h.k27 hcl hfwd hurr
-    simp only [hur, Bool.false_eq_true, false_or] at h27
+    have h27 : s.resp.isSome = true ∧ (liveCount s.streams = 0 ∨ respHasMore s.resp = true) := by
+      rcases h.k27 hcl hfwd hurr with h1 | h1 | h1
+      · rw [hur] at h1; cases h1
+      · exact h1
+      · rw [hp] at h1; exact absurd h1.1 (by decide)
     obtain ⟨k0, k1, k2, k3, k4, k5, k6, k7, k8, k9, k10, k11, k12, k13, k14, k15, k16, k17, k18, k19, k20, k21, k22, k23, k24, k25, k26, k27, k28, k29, k30, k31, k32, k33⟩ := h
     refine ⟨k0, k1, k2, k3, k4, k5, k6, k7_intro hsr hdir, ?_, k9, k10, k11, k12, k13, k14, ?_, ?_, ?_, ?_, ?_, k20, k21, k22, ?_, k24, k25, ?_, ?_, ?_, ?_, ?_, k31, ?_, (fun hh => absurd hh (by simp [hcl]))⟩
     · intro _; exact ⟨(k8 hcl).1, Or.inr (Or.inl (by simp [hp, Phase.next, upPhase]))⟩
@@ -392,7 +405,7 @@ theorem inv_work_wait (c : Cfg) (ar aq : Nat) (s : S) (h : Inv c ar aq s) (hrun 
       refine ⟨?_, h27.1, fun hh => by simp [hur] at hh, Or.inr hurr, ?_, ?_, ?_⟩
       · rcases h27.2 with h0 | h1
         · exact Or.inl h0
-        · exact Or.inr ⟨hurr, h1⟩
+        · exact Or.inr ⟨hurr, h1, hrsome⟩
       · simp [hp, Phase.next, hrst]
       · intro hh; simp [hp, Phase.next] at hh
       · intro hh; simp [hp, Phase.next] at hh
